@@ -66,10 +66,6 @@ func validateHAMTData(nd data.UnixFSData) error {
 		return ErrInvalidHashType
 	}
 
-	if !nd.FieldData().Exists() {
-		return ErrNoDataField
-	}
-
 	if !nd.FieldFanout().Exists() {
 		return ErrNoFanoutField
 	}
@@ -99,7 +95,11 @@ func bitField(nd data.UnixFSData) (bitfield.Bitfield, error) {
 	if err != nil {
 		return nil, err
 	}
-	bf.SetBytes(nd.FieldData().Must().Bytes())
+	// an absent Data field is an all-zero bitfield: protobuf encoders omit an
+	// empty optional bytes field, so this is how an empty shard is written
+	if nd.FieldData().Exists() {
+		bf.SetBytes(nd.FieldData().Must().Bytes())
+	}
 	return bf, nil
 }
 
